@@ -583,7 +583,9 @@ def render(doc, rd):
         tag, attrs, children, text = node
         if tag is None:
             # literal, already serialised content (a subtree in a foreign namespace); {P} is a prefix bound by the document
-            out.append(f"{nl}{ind * depth}" + text.replace("{P}", rd["prefix"] if rd["ns"] == "prefix" else "zz"))
+            pfx = rd["prefix"] if rd["ns"] == "prefix" else "zz"
+            own = "n" if pfx != "n" else "m"          # the subtree's own prefix must differ from the one it rebinds
+            out.append(f"{nl}{ind * depth}" + text.replace("{P}", pfx).replace("{N}", own))
             return
         a = "".join(f' {k}="{_esc(v, True)}"' for k, v in attrs.items())
         if root:
@@ -659,7 +661,7 @@ def doc_tree(doc):
         # prefix of its own, or (legal XML) a rebinding of the prefix the document uses for XTCE, all scoped to the subtree
         literal = {"default": '<div xmlns="http://www.w3.org/1999/xhtml"><p>operator note</p></div>',
                    "prefixed": '<ext:info xmlns:ext="urn:example:ext" ext:level="1"><ext:text>operator note</ext:text></ext:info>',
-                   "rebind": '<n:info xmlns:n="urn:example:ext" xmlns:{P}="urn:example:other"><{P}:Parameter name="not XTCE"/></n:info>',
+                   "rebind": '<{N}:info xmlns:{N}="urn:example:ext" xmlns:{P}="urn:example:other"><{P}:Parameter name="not XTCE"/></{N}:info>',
                    }[foreign]
         header_children = [E("NoteSet", {}, [E("Note", {}, [(None, {}, None, literal)])])]
         doc.features.add("foreign_subtree")
